@@ -102,6 +102,9 @@ class C13(Prop):
             cases.append({"changes": chs, "fail_watch": [bad], "fail_unwatch": [], "det": False, "via": "wx"})
         for i, c in enumerate(cases):
             c["id"] = i
+            # some watcher back-ends name the path in the error they return: still one runtime error per failing attempt
+            if c["fail_watch"] and r.random() < 0.5:
+                c["fail_with_path"] = True
         return cases
 
     def correspond(self, tier, seed, deep=False):
